@@ -31,6 +31,7 @@ func (prop) CoqModule() string { return "Gengo.Corr.C18" }
 func (prop) Parallel() int     { return 12 }
 
 const knownClass = "import_name_shadows_template_local"
+const knownClassIface = "unnamed_method_interface_rendered_any"
 
 // ---- the supervised child: the real generator through gengo.NewContext + Execute ----
 
@@ -422,9 +423,12 @@ func (prop) Run(raw json.RawMessage, scratch string) core.Result {
 			res.Notes = append(res.Notes, "outside the generator's domain ("+strings.Join(dedup(domainNotes), "; ")+"): "+v)
 		}
 	}
-	if in.shadowClass() {
+	switch {
+	case in.shadowClass():
 		res.Class = knownClass
-	} else {
+	case in.ifaceClass():
+		res.Class = knownClassIface
+	default:
 		res.Class = in.defectClass()
 	}
 	res.Observed = obs
@@ -449,8 +453,8 @@ func (prop) Run(raw json.RawMessage, scratch string) core.Result {
 	case "crash":
 		obsTerm = "ObsCrash"
 	}
-	res.Coq = fmt.Sprintf("mk_case %s %s %s %s %s", core.Hex(pkgPathOf(&in, "target")), core.CoqList(tis),
-		core.CoqBool(in.shadowClass()), core.CoqBool(obs.InDomain), obsTerm)
+	res.Coq = fmt.Sprintf("mk_case %s %s %s %s %s %s", core.Hex(pkgPathOf(&in, "target")), core.CoqList(tis),
+		core.CoqBool(in.shadowClass()), core.CoqBool(in.ifaceClass()), core.CoqBool(obs.InDomain), obsTerm)
 
 	// ---- distribution ----
 	res.Tags = append(res.Tags, "expected="+obs.Expected, "outcome="+obs.Outcome)
